@@ -223,6 +223,10 @@ def C07(ctx):
 def C08(ctx):
     f = ctx.facts("default")
     R.c08_r1(ctx, f)
+    # the sweeps skip what is labelled a function module: the labels are the ISO region map on all 40 versions (the sweeps
+    # themselves are judged against the ISO map on the versions of C08.R4)
+    T.c03_t2(ctx, f)
+    G.c03_r3(ctx, f, rid="C08.R7")
     G.c04_r5(ctx, f)
     d_sel = G.c11_r8(ctx, f)
     R.c04_r1(soft_if(ctx, d_sel, "C11.R8"), f)
